@@ -41,6 +41,10 @@ DEMO[C36]="c36_seed_demo_test.go:lang/expressions"; RUN[C36]="TestC36SeedDemo"
 DEMO[C39]="break_c39_demo_test.go:builtins/core/structs"; RUN[C39]="TestC39"
 DEMO[C19]="c19_demo_test.go:builtins/core/index"; RUN[C19]="TestC19"
 DEMO[C03]="c03_demo_test.go:lang"; RUN[C03]="TestC03"
+# a seeding round may bring its own table: $SEEDDIR/demo.tsv with lines "<id> <file>:<dir> <run regexp>"
+if [ -f "${SEEDDIR:-/tmp/seed}/demo.tsv" ]; then
+  while read -r id fd run; do DEMO[$id]="$fd"; RUN[$id]="$run"; done < "${SEEDDIR:-/tmp/seed}/demo.tsv"
+fi
 for id in "$@"; do
   f=${DEMO[$id]%%:*}; d=${DEMO[$id]##*:}
   cd $W; git checkout -q -- .; git clean -fdq
